@@ -41,6 +41,16 @@ class Store:
   def snapshot(self):
     return (self.has, self.val)
 
+  def havoc(self, interp):
+    """The store becomes arbitrary (any well-nested activity may have happened
+    since it was last looked at); the new state is the reference state for
+    "restored exactly"."""
+    n = fresh_name('tlsh')
+    self.has = z3.Array(n + '.has', z3.StringSort(), z3.BoolSort())
+    self.val = z3.Array(n + '.val', z3.StringSort(), z3.IntSort())
+    self.has0, self.val0 = self.has, self.val
+    interp.path.assume(self.initial_values_are_not_sentinels(), check=False)
+
   # -- value ids ---------------------------------------------------------------
   def vid(self, interp, v):
     v = interp.resolve(v) if interp is not None else v
